@@ -13,7 +13,9 @@
     (row the cursor was known to be on before the call); the nested call returns 0.
 """
 import itertools
+import os
 import re
+import sys
 
 from mc.runner import Acc, Report
 from mc import winharness as WH
@@ -181,7 +183,7 @@ def shard_a(args):
                             check_query(acc, pre, report, row, col, trailing, with_cb, (), case)
                     # long failure patterns ("any number of times")
                     if (row, col) == (2, 10) or (thorough and row == col):
-                        for pat in (("before_each", 1), ("before_each", 5), ("first", 150), ("middle", 150), ("before_each", 40)):
+                        for pat in (("before_each", 1), ("before_each", 5), ("first", 150), ("middle", 150), ("before_each", 40), ("first", 1500), ("middle", 1200)):
                             case = {"preceding": pre, "report": report, "trailing": "x", "callback": True, "failing_reads": list(pat)}
                             acc.case(True, key=(pre, report, pat), sample=case)
                             acc.transitions += 1
@@ -228,6 +230,12 @@ def shard_b(args):
             for r2 in range(h):
                 for k in ks:
                     out.append(("nested", r1, k, r2))
+        # a nested call (signal handler) arriving at the k-th asynchronous point of the outer call - not only inside a read
+        if step <= 1 or thorough:
+            for r1 in range(h):
+                for r2 in sorted({0, h - 1, (r1 + 1) % h}):
+                    for k in range(1, 40):
+                        out.append(("nested_at_point", r1, k, r2))
         return out
 
     def do_query(act, case):
@@ -237,10 +245,28 @@ def shard_b(args):
         before_top = win.top_usable_row
         known = win._last_cursor_row
         nested_results = []
+        point_hook = None
         if act[0] == "query":
             term.r = act[1]
             final = act[1]
             hook = None
+        elif act[0] == "nested_at_point":
+            _, r1, k, r2 = act
+            term.r = r1
+            final = r2
+            hook = None
+            pstate = {"n": 0, "fired": False}
+            cdir = os.path.dirname(os.path.abspath(sys.modules["curtsies"].__file__)) + os.sep
+
+            def point_hook(frame, event, arg):
+                if pstate["fired"] or event not in ("call", "c_return") or not frame.f_code.co_filename.startswith(cdir):
+                    return
+                pstate["n"] += 1
+                if pstate["n"] == k:
+                    pstate["fired"] = True
+                    sys.setprofile(None)
+                    term.r = r2  # the content moved again just before the nested call
+                    nested_results.append(win.get_cursor_vertical_diff())
         else:
             _, r1, k, r2 = act
             term.r = r1
@@ -266,14 +292,22 @@ def shard_b(args):
         world.inp.reads = 0
         world.inp.read = read
         try:
+            if point_hook is not None:
+                sys.setprofile(point_hook)
             ret = win.get_cursor_vertical_diff()
         except Exception as ex:  # noqa
             acc.failure("C18:vertical_diff_raises:" + type(ex).__name__, case, repr(ex))
             return False
         finally:
+            sys.setprofile(None)
             world.inp.read = old_read
-        if act[0] == "nested" and not nested_results:
-            final = act[1]  # the hook position lay beyond the reads of this query: plain query answered r1
+        if act[0] in ("nested", "nested_at_point") and not nested_results:
+            final = act[1]  # the hook position lay beyond this query: plain query answered r1
+        if act[0] == "nested_at_point" and nested_results:
+            # a nested call that arrives outside the protected query is an ordinary call of its own: both calls together must
+            # account for the whole movement exactly once
+            ret = ret + sum(nested_results)
+            nested_results = []
         if any(x != 0 for x in nested_results):
             acc.failure("C18:nested_call_did_not_return_zero", case, repr(nested_results))
             return False
@@ -284,7 +318,9 @@ def shard_b(args):
             # nothing rendered yet: the first report only establishes where the cursor is; movement observed between that report and
             # a re-query (nested call) is real movement and must be accounted for
             want = (final - act[1]) if (act[0] == "nested" and nested_results) else 0
-        if dtop + ret != want:
+            if act[0] == "nested_at_point":
+                want = None  # nothing rendered yet: no reference row; only the flags are checked
+        if want is not None and dtop + ret != want:
             acc.failure("C18:movement_not_conserved", case, "top_usable_row changed by %d, returned %d, cursor moved from %r to %r" % (dtop, ret, known, final))
             return False
         if win.in_get_cursor_diff:
